@@ -121,7 +121,7 @@ def r2(ctx, R):
 
 
 @rule("C08.R3", "C08", "SIB", "hit path and miss path record the same edge under the same guard; idxstack arms",
-      min_instances=8, also=("C02",))
+      min_instances=8, also=("C02", "C09"))
 def r3(ctx, R):
     """eval_node (hit): under `self.callstack` non-empty and pred = idxstack[-1] >= 0:
     add_edge(node, self.callstack[pred]).  CallStack.pop (miss completion): under `self`
@@ -177,8 +177,19 @@ def r3(ctx, R):
               stmt="add_edge((cells,), self[pred])")
     else:
         g = q.guards_of(pop, obj_edges[0])
-        if ("cells.is_cached", "F") not in g or ("pred >= 0", "T") not in g:
-            R.bad(pop, obj_edges[0], "object-node edge not under (uncached and pred >= 0)")
+        if g != {("self", "T"), ("cells.is_cached", "F"), ("pred >= 0", "T")}:
+            R.bad(pop, obj_edges[0], "object-node edge is not recorded under exactly (stack non-empty, uncached, pred >= 0): "
+                                     "guards are %s - an uncached cells reached through another uncached cells is not linked "
+                                     "to the cached caller" % sorted(g))
+    gk = q.guards_of(pop, m)
+    R.inst("pop: key-node edge under exactly (stack non-empty, cached, pred >= 0)")
+    if gk != {("self", "T"), ("cells.is_cached", "T"), ("pred >= 0", "T")}:
+        R.bad(pop, m, "completion edge has extra/missing conditions: %s" % sorted(gk))
+    gh = q.guards_of(en, h)
+    R.inst("eval_node: hit edge under exactly (cached, held, stack non-empty, pred >= 0)")
+    if {t for t, l in gh if l == "T"} != {"cells.is_cached", "cells.has_node(key)", "self.callstack", "pred >= 0"} or \
+            any(l == "F" for t, l in gh):
+        R.bad(en, h, "hit edge has extra/missing conditions: %s" % sorted(gh))
     # append arms
     ap = ctx.func("CallStack.append")
     arms = q.calls(ap, name="append", recv_endswith="idxstack")
